@@ -11,7 +11,8 @@ import json
 
 TYPES_DATA = ["Int", "Numeric", "Text", "Bool", "Choice", "ChoiceList", "Date", "Any"]
 CHOICES = ["a", "b", "c", "d"]
-TEXTS = ["", "x", "y", "foo", "Bar", "a", "b", "12", "3.5", "é"]
+# incl. strings that LOOK like JSON lists: list-typed columns parse such strings when they are set
+TEXTS = ["", "x", "y", "foo", "Bar", "a", "b", "12", "3.5", "é", '["a", "b"]', "[1, 2]"]
 
 DEFAULT_PROFILE = {
   "add_record": 14, "bulk_add": 6, "update_record": 14, "bulk_update": 6, "remove_record": 7,
@@ -42,6 +43,7 @@ DEFAULT_PROFILE = {
   "then_fail": 3,
   "hide_field": 0.5,
   "retype_empty": 1,
+  "replace_with_trigger": 3,
   "remove_readd": 2,
   "add_empty_column": 2,
   "stale_undo": 1,
@@ -391,6 +393,30 @@ class Gen(object):
     cols = w.data_cols(t)
     return ["ReplaceTableData", t["tableId"], ids,
             {c["colId"]: [self.value_for(w, c) for _ in ids] for c in cols}]
+
+  def g_replace_with_trigger(self, w):
+    """ReplaceTableData on a table that has a data column with a trigger (default-value) formula, NOT supplying
+    that column: the formula fills it for every new row, also for rows whose ids existed before.  The formula
+    depends on the row id only, so recalculating it is always harmless."""
+    rng = self.rng
+    t = self._table(w)
+    if not t or not self.formulas:
+      return None
+    trig = [c for c in w.visible_cols(t) if not c["isFormula"] and c["formula"] and "$id" in c["formula"]]
+    add = None
+    if not trig:
+      f = rng.choice(["'K%s' % $id", "$id * 10", "[$id, 'x']"])
+      add = ["AddColumn", t["tableId"], self.new_name(), {"type": rng.choice(["Any", "Text", "Int"]), "isFormula": False,
+                                                          "formula": f, "recalcWhen": 0}]
+      if rng.random() < 0.3:
+        return add
+    old = list(t["rows"])
+    k = rng.randint(1, 4)
+    ids = rng.choice([list(range(1, k + 1)), (old[:2] + [max(old + [0]) + 1 + i for i in range(k)])[:k + 1],
+                      [max(old + [0]) + 1 + i for i in range(k)]])
+    cols = [c for c in w.data_cols(t) if c not in trig or rng.random() < 0.15]
+    rep = ["ReplaceTableData", t["tableId"], ids, {c["colId"]: [self.value_for(w, c) for _ in ids] for c in cols}]
+    return ([add, rep],) if add else rep
 
   def g_add_column(self, w):
     t = self._table(w)
